@@ -230,8 +230,8 @@ class DomainPredicates:
         """yield all domain rules for all symbolic atoms in node"""
         for symbol in collect_ast(node, "SymbolicAtom"):
             symbol = symbol.symbol
-            dom_pred = Predicate(symbol.name, len(symbol.arguments))
             if symbol.ast_type == ASTType.Function:
+                dom_pred = Predicate(symbol.name, len(symbol.arguments))
                 orig_pred = [key for key, value in self.domains.items() if value == dom_pred]
                 if orig_pred:
                     yield from self.create_domain(orig_pred[0])
@@ -546,6 +546,8 @@ class DomainPredicates:
 
         def is_too_complex(cond: AST) -> bool:
             for atom in collect_ast(cond, "SymbolicAtom"):
+                if atom.symbol.ast_type != ASTType.Function:
+                    return True
                 name = atom.symbol.name
                 arity = len(atom.symbol.arguments)
                 if Predicate(name, arity) in self._too_complex:
@@ -561,6 +563,8 @@ class DomainPredicates:
             if cond.ast_type in (ASTType.BodyAggregate, ASTType.Aggregate):
                 for elem in cond.elements:
                     for atom in collect_ast(elem, "SymbolicAtom"):
+                        if atom.symbol.ast_type != ASTType.Function:
+                            return True
                         name = atom.symbol.name
                         arity = len(atom.symbol.arguments)
                         if not self.is_static(Predicate(name, arity)):
@@ -651,20 +655,26 @@ class DomainPredicates:
                 head.ast_type == ASTType.Literal
                 and head.sign == Sign.NoSign
                 and head.atom.ast_type == ASTType.SymbolicAtom
+                and head.atom.symbol.ast_type == ASTType.Function
             ):
                 domain_rules[atom2pred(head.atom)].append((head.atom, body))
             elif head.ast_type == ASTType.Disjunction:
                 for elem in head.elements:
                     assert elem.ast_type == ASTType.ConditionalLiteral
                     condition = elem.condition
-                    if elem.literal.sign == Sign.NoSign and elem.literal.atom.ast_type == ASTType.SymbolicAtom:
+                    if (
+                        elem.literal.sign == Sign.NoSign
+                        and elem.literal.atom.ast_type == ASTType.SymbolicAtom
+                        and elem.literal.atom.symbol.ast_type == ASTType.Function
+                    ):
                         domain_rules[atom2pred(elem.literal.atom)].append(
                             (elem.literal.atom, list(chain(condition, body)))
                         )
             elif head.ast_type == ASTType.HeadAggregate:
                 for elem in filter(
                     lambda elem: elem.condition.literal.sign == Sign.NoSign
-                    and elem.condition.literal.atom.ast_type == ASTType.SymbolicAtom,
+                    and elem.condition.literal.atom.ast_type == ASTType.SymbolicAtom
+                    and elem.condition.literal.atom.symbol.ast_type == ASTType.Function,
                     head.elements,
                 ):
                     domain_rules[atom2pred(elem.condition.literal.atom)].append(
@@ -673,7 +683,8 @@ class DomainPredicates:
             elif head.ast_type == ASTType.Aggregate:
                 for elem in filter(
                     lambda elem: elem.literal.sign == Sign.NoSign
-                    and elem.literal.atom.ast_type == ASTType.SymbolicAtom,
+                    and elem.literal.atom.ast_type == ASTType.SymbolicAtom
+                    and elem.literal.atom.symbol.ast_type == ASTType.Function,
                     head.elements,
                 ):
                     domain_rules[atom2pred(elem.literal.atom)].append(
